@@ -110,6 +110,13 @@ def c03_2(ck, prog):
                 ok = True
             else:
                 why = 'literal sender %r is not a reserved non-minted unique-name form' % s
+        elif is_ref(a) and ctx.var(a) is not None and ctx.var(a)[0] == 'nz' and len(ctx.var(a)) > 1 \
+                and isinstance(ctx.var(a)[1], str):
+            # the variable holds a string literal on this path
+            if literal_ok(ctx.var(a)[1]):
+                ok = True
+            else:
+                why = 'literal sender %r is not a reserved non-minted unique-name form' % ctx.var(a)[1]
         elif is_ref(a) and ctx.origin_call(a) is None and a.get('kind') == 'local':
             # a variable that may hold the placeholder literal: every definition of it must be one of the
             # two accepted forms
@@ -408,12 +415,27 @@ def c03_4(ck, prog):
                              'unique name copied from %s, not from the name parameter' % estr(c['args'][0]))
 
 
+def counter_names(fn):
+    """The two static counters a unique name is minted from: the variables given to the first and the second
+    _dbus_string_append_int of create_unique_client_name (":<major>.<minor>"), whatever they are called."""
+    calls = sorted([c for b, i, c in fn.calls('_dbus_string_append_int') if len(c['args']) > 1 and is_ref(c['args'][1])
+                    and c['args'][1].get('kind') in ('global', 'slocal')], key=lambda c: (c['line'], c['id']))
+    names = []
+    for c in calls:
+        if c['args'][1]['name'] not in names:
+            names.append(c['args'][1]['name'])
+    if len(names) != 2:
+        raise AnalysisBroken('create_unique_client_name: the major / minor counters were not recognised')
+    return names[0], names[1]
+
+
 def c03_5(ck, prog):
     r = ck.rule('C03.5', 'the unique-name counters only move forward and are private to '
                 'create_unique_client_name; minted names start with ":"', 'ABS',
-                breaks='a unique name is handed out twice', floor=4)
+                breaks='a unique name is handed out twice', floor=3)
     fn = prog.fn('create_unique_client_name', 'bus/driver.c')
-    for name in ('next_major_number', 'next_minor_number'):
+    MAJOR, MINOR = counter_names(fn)
+    for name in (MAJOR, MINOR):
         ws = lib.global_writes(prog, name)
         if not ws:
             raise AnalysisBroken('counter %s has no writers' % name)
@@ -425,7 +447,7 @@ def c03_5(ck, prog):
                 r.ok(key, {'line': line})
             elif how == '++':
                 r.ok(key, {'line': line})
-            elif name == 'next_minor_number' and how == '=' and is_int(rhs, 0):
+            elif name == MINOR and how == '=' and is_int(rhs, 0):
                 # reset allowed only right after major was incremented on the same path
                 if minor_reset_after_major_inc(fn, line):
                     r.ok(key, {'line': line, 'note': 'reset only after major += 1'})
@@ -456,7 +478,7 @@ def c03_5(ck, prog):
                 first = None
                 bumped = False
         for lhs, how, rhs in written_lvalues(ev):
-            if is_ref(lhs, 'next_minor_number') and how in ('+=', '++'):
+            if is_ref(lhs, MINOR) and how in ('+=', '++'):
                 bumped = True
         return (first, bumped)
 
@@ -633,15 +655,16 @@ def c03_6(ck, prog):
 
 
 def minor_reset_after_major_inc(fn, reset_line):
+    MAJOR, MINOR = counter_names(fn)
     """Every path to the reset crosses `next_major_number += 1` after the last
     loop-head (i.e. in the same iteration)."""
     bad = []
 
     def on_event(user, ev, ctx):
         for lhs, how, rhs in written_lvalues(ev):
-            if is_ref(lhs, 'next_major_number') and how in ('+=', '++'):
+            if is_ref(lhs, MAJOR) and how in ('+=', '++'):
                 user = True
-            if is_ref(lhs, 'next_minor_number') and how == '=':
+            if is_ref(lhs, MINOR) and how == '=':
                 if not user:
                     bad.append(ev['line'])
                 user = False
